@@ -36,6 +36,10 @@ Definition call {R R' L S} (x:ctl R unit unit) (k:R -> ctl R' L S) : ctl R' L S 
 Fixpoint map_m {A B R L} (f:A -> ctl R L B) (l:list A) : ctl R L (list B) :=
   match l with [] => Next []
   | a::l' => cbind (f a) (fun b => cbind (map_m f l') (fun r => Next (b::r))) end.
+(* [x for x in l if c(x)] with a condition that may raise *)
+Fixpoint filter_m {A R L} (f:A -> ctl R L bool) (l:list A) : ctl R L (list A) :=
+  match l with [] => Next []
+  | a::l' => cbind (f a) (fun b => cbind (filter_m f l') (fun r => Next (if b then a :: r else r))) end.
 Definition py_assert {R L} (b:bool) : ctl R L unit := if b then Next tt else Raise.
 
 (* ---- values ------------------------------------------------------------------------------------------- *)
@@ -191,8 +195,13 @@ Definition is_none {A} (o:option A) : bool := match o with None => true | Some _
 (* a < b where either side may be None (TypeError) *)
 Definition py_lt_opt {R L} (a b:option Z) : ctl R L bool :=
   match a, b with Some x, Some y => Next (x <? y)%Z | _, _ => Raise end.
+(* min(a, b) where either side may be None (TypeError) *)
+Definition py_min2_opt {R L} (a b:option Z) : ctl R L Z :=
+  match a, b with Some x, Some y => Next (Z.min x y) | _, _ => Raise end.
 Definition py_unopt {R L} (a:option Z) : ctl R L Z := match a with Some x => Next x | None => Raise end.
 
+(* range(n) *)
+Definition zrange (n:Z) : list Z := map Z.of_nat (seq 0 (Z.to_nat n)).
 (* enumerate(l) *)
 Fixpoint py_enumerate_from {A} (i:Z) (l:list A) : list (Z * A) :=
   match l with [] => [] | a::r => (i, a) :: py_enumerate_from (i + 1)%Z r end.
